@@ -1,1 +1,277 @@
-fn main() { println!("hello"); }
+//! vsim — deterministic simulation with fault injection for varlink/rust.
+//!
+//!   vsim check <PROP> [--tier quick|thorough]     run the exploration plan of one property
+//!   vsim replay <file>                            re-execute a replay file, must reproduce
+//!   vsim loghash <PROP> [--tier ..] [--limit N]   print per-run event-log hashes (determinism proof)
+//!
+//! Exit status: 0 property held on everything explored (known findings are printed, not alarmed),
+//! 1 violation (a line `VIOLATION property=<id> replay=<path>` is printed), 2 harness error.
+
+mod alphabet;
+mod cases;
+mod hsim;
+mod ksim;
+mod lsim;
+mod model;
+mod oracle;
+mod props;
+mod psim;
+mod qsim;
+mod report;
+mod rng;
+mod svc;
+
+use std::collections::BTreeMap;
+
+use serde_json::{json, Value};
+
+use cases::{eval, minimise, Case};
+use report::{load_known, run_batch, write_evidence, write_replay, EvidenceMeta, Tier, Timer};
+use rng::derive_seed;
+
+fn usage() -> ! {
+    eprintln!("usage: vsim check <PROP> [--tier quick|thorough] | vsim replay <file> | vsim loghash <PROP> [--limit N]");
+    std::process::exit(2);
+}
+
+fn seed_from_env() -> u64 {
+    match std::env::var("VERIF_SEED") {
+        Ok(s) if !s.trim().is_empty() => s.trim().parse::<u64>().unwrap_or_else(|_| {
+            eprintln!("harness error: VERIF_SEED={:?} is not an unsigned integer", s);
+            std::process::exit(2);
+        }),
+        _ => 1,
+    }
+}
+
+fn tier_from(args: &[String]) -> Tier {
+    let mut t = match std::env::var("VERIF_TIER").as_deref() {
+        Ok("thorough") => Tier::Thorough,
+        _ => Tier::Quick,
+    };
+    for (i, a) in args.iter().enumerate() {
+        if a == "--tier" {
+            match args.get(i + 1).map(|s| s.as_str()) {
+                Some("quick") => t = Tier::Quick,
+                Some("thorough") => t = Tier::Thorough,
+                _ => usage(),
+            }
+        }
+    }
+    t
+}
+
+fn intern_prop(p: &str) -> &'static str {
+    match p {
+        "C01" => "C01",
+        "C02" => "C02",
+        "C03" => "C03",
+        "C04" => "C04",
+        "C05" => "C05",
+        "C06" => "C06",
+        "C07" => "C07",
+        "C13" => "C13",
+        "C14" => "C14",
+        "C15" => "C15",
+        "C19" => "C19",
+        _ => {
+            eprintln!("harness error: property {} has no check (not applicable or unknown)", p);
+            std::process::exit(2);
+        }
+    }
+}
+
+fn gen_case(plan: &props::Plan, prop: &str, seed: u64, i: u64) -> (Case, &'static str, u64, u64) {
+    let (space, local) = plan.locate(i);
+    let run_seed = derive_seed(seed, &format!("{}/{}", prop, space.name), local);
+    ((space.gen)(local, run_seed), space.name, local, run_seed)
+}
+
+fn quiet_panics() {
+    // panics inside simulated runs are verdicts (caught and reported), not crashes to print
+    std::panic::set_hook(Box::new(|info| {
+        if std::env::var("VSIM_SHOW_PANICS").is_ok() {
+            eprintln!("{}", info);
+        }
+    }));
+}
+
+fn check(prop: &'static str, tier: Tier) -> i32 {
+    let seed = seed_from_env();
+    println!("VERIF_SEED={} property={} tier={} threads={}", seed, prop, tier.name(), report::threads());
+    let t = Timer::start();
+    let plan = props::plan_for(prop, tier).unwrap_or_else(|| usage());
+    let total = plan.total();
+    for s in &plan.spaces {
+        println!("  space {:<28} {:>9} cases{}", s.name, s.size, if s.exhaustive { " (complete)" } else { " (seeded sample)" });
+    }
+    let agg = run_batch(prop, total, 6, |i| {
+        let (case, _, _, _) = gen_case(&plan, prop, seed, i);
+        eval(&case)
+    });
+    let known = load_known();
+    let mut known_lines: Vec<String> = Vec::new();
+    let mut unknown = 0u64;
+    // one report per violated clause, each from the lowest failing index
+    let mut by_clause: BTreeMap<String, (u64, oracle::Violation)> = BTreeMap::new();
+    for (idx, vs) in &agg.failures {
+        for v in vs {
+            by_clause.entry(v.clause.clone()).or_insert((*idx, v.clone()));
+        }
+    }
+    for (clause, (idx, v)) in &by_clause {
+        let (case, space, local, run_seed) = gen_case(&plan, prop, seed, *idx);
+        // every failing run of this clause must be covered by a finding for it to count as known
+        let all_known = agg
+            .failures
+            .values()
+            .flatten()
+            .filter(|x| &x.clause == clause)
+            .all(|x| known.matches(prop, x).is_some());
+        if all_known {
+            let f = known.matches(prop, v).unwrap();
+            let line = format!("KNOWN-FINDING: property={} {}", prop, f.what);
+            println!("{}", line);
+            known_lines.push(line);
+            continue;
+        }
+        unknown += 1;
+        let (min, tries) = minimise(&case, prop, clause, 400);
+        let r = eval(&min);
+        let mv = r
+            .violations
+            .iter()
+            .find(|x| x.prop == prop && &x.clause == clause)
+            .cloned()
+            .unwrap_or_else(|| v.clone());
+        let body = json!({
+            "property": prop,
+            "clause": clause,
+            "detail": mv.detail,
+            "verif_seed": seed,
+            "space": space,
+            "index_in_space": local,
+            "run_seed": run_seed,
+            "log_hash": format!("{:016x}", r.log_hash),
+            "minimised": {"shrink_attempts": tries},
+            "case": serde_json::to_value(&min).unwrap(),
+            "original_case": serde_json::to_value(&case).unwrap(),
+        });
+        let path = write_replay(prop, seed, *idx, body);
+        println!("violated clause: {} — {}", clause, mv.detail);
+        println!("VIOLATION property={} replay={}", prop, path);
+    }
+    let wall = t.secs();
+    let meta = EvidenceMeta {
+        prop,
+        tier,
+        seed,
+        level: plan.level,
+        rule: plan.rule.clone(),
+        exhaustive: plan.spaces.iter().all(|s| s.exhaustive),
+        components_real: plan.real.clone(),
+        components_stub: plan.stub.clone(),
+        assumptions: plan.assumptions.clone(),
+        extra: json!({
+            "spaces": plan.spaces.iter().map(|s| json!({"name": s.name, "cases": s.size, "complete_enumeration": s.exhaustive})).collect::<Vec<Value>>(),
+            "failing_runs": agg.failures.len(),
+        }),
+    };
+    write_evidence(&meta, &agg, wall, unknown, &known_lines);
+    println!(
+        "{}: {} runs, {} distinct non-trivial, {} failing runs, {} inconclusive, {:.1}s",
+        prop,
+        agg.evaluations,
+        agg.nontrivial_sigs.len(),
+        agg.failures.len(),
+        agg.inconclusive,
+        wall
+    );
+    if !agg.other_props.is_empty() {
+        println!("  (violations attributed to other properties seen in these runs: {:?})", agg.other_props);
+    }
+    if unknown > 0 {
+        1
+    } else {
+        0
+    }
+}
+
+fn replay(path: &str) -> i32 {
+    let text = std::fs::read_to_string(path).unwrap_or_else(|e| {
+        eprintln!("harness error: cannot read {}: {}", path, e);
+        std::process::exit(2);
+    });
+    let body: Value = serde_json::from_str(&text).unwrap_or_else(|e| {
+        eprintln!("harness error: {} is not JSON: {}", path, e);
+        std::process::exit(2);
+    });
+    let case: Case = serde_json::from_value(body["case"].clone()).unwrap_or_else(|e| {
+        eprintln!("harness error: replay case does not parse: {}", e);
+        std::process::exit(2);
+    });
+    let prop = body["property"].as_str().unwrap_or("").to_string();
+    let clause = body["clause"].as_str().unwrap_or("").to_string();
+    let r = eval(&case);
+    let hash = format!("{:016x}", r.log_hash);
+    println!("replay {}: log_hash={} (recorded {})", path, hash, body["log_hash"].as_str().unwrap_or("?"));
+    for v in &r.violations {
+        println!("  {} {}: {}", v.prop, v.clause, v.detail);
+    }
+    let same = r.violations.iter().any(|v| v.prop == prop && v.clause == clause);
+    if same {
+        if Some(hash.as_str()) != body["log_hash"].as_str() {
+            println!("REPRODUCED-WITH-DIFFERENT-LOG property={} clause={}", prop, clause);
+        } else {
+            println!("REPRODUCED property={} clause={}", prop, clause);
+        }
+        println!("VIOLATION property={} replay={}", prop, path);
+        1
+    } else {
+        println!("NOT-REPRODUCED property={} clause={}", prop, clause);
+        0
+    }
+}
+
+fn loghash(prop: &'static str, tier: Tier, limit: u64) -> i32 {
+    let seed = seed_from_env();
+    let plan = props::plan_for(prop, tier).unwrap_or_else(|| usage());
+    let total = plan.total().min(limit);
+    // spread the sample over all spaces
+    let stride = (plan.total() / total.max(1)).max(1);
+    let hashes = std::sync::Mutex::new(BTreeMap::new());
+    run_batch(prop, total, 0, |k| {
+        let i = (k * stride) % plan.total();
+        let (case, _, _, _) = gen_case(&plan, prop, seed, i);
+        let r = eval(&case);
+        hashes.lock().unwrap().insert(i, r.log_hash);
+        r
+    });
+    for (i, h) in hashes.into_inner().unwrap() {
+        println!("{} {:016x}", i, h);
+    }
+    0
+}
+
+fn main() {
+    let args: Vec<String> = std::env::args().collect();
+    if args.len() < 3 {
+        usage();
+    }
+    quiet_panics();
+    let code = match args[1].as_str() {
+        "check" => check(intern_prop(&args[2]), tier_from(&args)),
+        "replay" => replay(&args[2]),
+        "loghash" => {
+            let mut limit = 2000u64;
+            for (i, a) in args.iter().enumerate() {
+                if a == "--limit" {
+                    limit = args.get(i + 1).and_then(|s| s.parse().ok()).unwrap_or(2000);
+                }
+            }
+            loghash(intern_prop(&args[2]), tier_from(&args), limit)
+        }
+        _ => usage(),
+    };
+    std::process::exit(code);
+}
